@@ -580,14 +580,22 @@ func TestVerifC09Pipe(t *testing.T) {
 				live[int(id)] = true
 			}
 			if r.Chance(0.3) && len(live) > 0 {
+				ids := make([]int, 0, len(live))
 				for x := range live {
-					b.Release(uint16(x))
-					delete(live, x)
-					break
+					ids = append(ids, x)
 				}
+				sort.Ints(ids)
+				x := ids[r.Intn(len(ids))]
+				b.Release(uint16(x))
+				delete(live, x)
 			}
 		}
+		ids := make([]int, 0, len(live))
 		for x := range live {
+			ids = append(ids, x)
+		}
+		sort.Ints(ids)
+		for _, x := range ids {
 			used = append(used, strconv.Itoa(x))
 		}
 		next := int(b.next.Load())
@@ -639,10 +647,14 @@ func c09PipeScenario(r *VRand, st *VStream, stat *VStats) (ok bool, where string
 		}
 		// park readLoops and closers at their afterSwap yields
 		w.h.pipeGate = func(name string, args []any) (int, bool) {
-			if !strings.HasPrefix(name, "dnspipe.") || len(args) < 2 {
+			// only the two yield points this replay knows are parked; any other (added later) is transparent
+			if name != "dnspipe.readLoop.afterSwap" && name != "dnspipe.close.afterSwap" || len(args) < 2 {
 				return 0, false
 			}
-			pc := args[0].(*pipelinedConn)
+			pc, ok := args[0].(*pipelinedConn)
+			if _, ok2 := args[1].(*responseSlot); !ok || !ok2 {
+				return 0, false // arguments of another shape: not ours
+			}
 			for c, p := range w.pcs {
 				if p == pc {
 					if name == "dnspipe.readLoop.afterSwap" {
@@ -896,8 +908,14 @@ func c09PipeScenario(r *VRand, st *VStream, stat *VStats) (ok bool, where string
 				// before the first yield; a RoundTrip that returns WITHOUT having closed is a definite observation
 				closed := "0"
 				var early *c09PipeRes
+				var pendingEv *c09Ev
 				select {
 				case <-w.pcs[c].closed:
+					closed = "1"
+				case ev := <-w.h.event:
+					// the closer reached its first yield before signalling closed (sweep first, close(pc.closed) last):
+					// the connection is being closed by this call all the same
+					pendingEv = &ev
 					closed = "1"
 				case res := <-wt.done:
 					early = &res
@@ -914,6 +932,9 @@ func c09PipeScenario(r *VRand, st *VStream, stat *VStats) (ok bool, where string
 				if early != nil {
 					res = *early
 				} else {
+					if pendingEv != nil {
+						w.h.event <- *pendingEv // hand it to runCloser
+					}
 					w.runCloser(c, k)
 					// the closer is the cancelled waiter itself: it now returns
 					select {
